@@ -16,6 +16,7 @@ CONSTANTS
  Probes = FALSE
  Exts = {FALSE}
  KeepSlots = TRUE
+ TarUnverified = FALSE
 INIT Init
 NEXT Next
 VIEW View
